@@ -559,6 +559,13 @@ Theorem quick_all_emitted_refuted :
   quick 3 false 4 5 deadlock_circuit deadlock_hints = inr EPending.
 Proof. split; [apply wf_inputb_sound; vm_compute; reflexivity| vm_compute; reflexivity]. Qed.
 
+Lemma quick_correct_full_refuted :
+  ~ (forall k nq ncyc c hints, 2 <= k -> wf_input nq ncyc c ->
+     quick k false nq ncyc c hints = inr EBadHint \/
+     exists o, quick k false nq ncyc c hints = inl o /\ good_partition k (map snd c) o).
+Proof. intros H. destruct quick_all_emitted_refuted as [W E].
+  destruct (H 3 4 5%Z deadlock_circuit deadlock_hints) as [H1|(o & H1 & _)]; auto; rewrite E in H1; discriminate. Qed.
+
 (* with the blocked-qudit propagation also run when a BarrierBin is created
    (fixes/C08.Q1.patch) the same circuit is partitioned *)
 Lemma quick_fixed_on_witness :
